@@ -93,4 +93,27 @@ def lookup (m : Trains α) (k : List Char) : Option (List α) :=
   | [] => none
   | (k', v) :: rest => if k' = k then some v else lookup rest k
 
+/-! ### data the regenerated `spike_times_from_json` (Generated/PySpikesJson.lean) is stated over -/
+
+/-- one entry of the `stimuli` array; the trains the type-specific generators return for a target are parameters -/
+structure Stim (α : Type) where
+  variables : List (List Char)
+  type : String
+  poissonTrain : List Char → List α      -- `_generate_homogeneous_poisson_spikes(T, rate)` at this call
+  regularTrain : List Char → List α      -- `_generate_regular_spikes(T, rate)`
+  listRaw : List α                        -- `np.loadtxt(io.StringIO(stimulus["list"]), ndmin=1)`
+
+/-- `d[k] = v` on the association list -/
+def setKey (m : Trains α) (k : List Char) (v : List α) : Trains α :=
+  match m with
+  | [] => [(k, v)]
+  | (k', v') :: rest => if k' = k then (k', v) :: rest else (k', v') :: setKey rest k v
+
+/-- the train a stimulus delivers to one (rewritten) target name -/
+def Stim.train [LE α] [DecidableLE α] (T : α) (s : Stim α) (sym : List Char) : List α :=
+  if s.type = "poisson_generator" then s.poissonTrain sym
+  else if s.type = "regular" then s.regularTrain sym
+  else if s.type = "list" then listStim T s.listRaw
+  else []
+
 end OdeVerif.Spikes
